@@ -94,6 +94,8 @@ def _work(args):
     prop_id, tier, base_seed, start, count, deadline, stride = args
     faulthandler.enable()
     prop = load_prop(prop_id)
+    if hasattr(prop, "warmup"):
+        prop.warmup()
     agg = Agg()
     i = start
     n = 0
@@ -284,6 +286,8 @@ def fresh_replay(prop_id, path):
 
 def run_replay(prop_id, path):
     prop = load_prop(prop_id)
+    if hasattr(prop, "warmup"):
+        prop.warmup()
     doc = unjs(json.load(open(path)))
     res = prop.replay(doc["case"])
     v = res.get("violation")
@@ -299,6 +303,8 @@ def main(prop_id, tier, seed, runs=None, jobs=None, wall=None):
     from . import findings
     t0 = time.time()
     prop = load_prop(prop_id)
+    if hasattr(prop, "warmup"):
+        prop.warmup()
     b = prop.budget(tier)
     runs = runs or b["runs"]
     wall = wall or b.get("wall", 600)
